@@ -30,6 +30,9 @@ impl Check for C14 {
             (true, true) => run::<f32>(src, obs, true),
         }
     }
+    fn regressions(&self) -> Vec<(&'static str, fn() -> Result<(), Fail>)> {
+        vec![("d4-wrong-shape-accepted", super::regress::d4_wrong_shape_accepted)]
+    }
     fn rule(&self) -> String {
         "every entry point with a buffer (interp_into, interp_array_into) of Interp1D (Linear, CubicSpline) and Interp2D (Bilinear), query dim \
          types Ix1, Ix2, Ix3 and IxDyn (rank 0..3), data rank 1..4 (static and dynamic), axis lengths 0..3. The buffer is a window (offset 0..1, \
